@@ -164,6 +164,18 @@ def R2_shift_bitmap_pairing(run):
             if st["k"] == "=" and "p" in st["p"] and any(isinstance(e, dict) and e.get("f") == "ticks" for e in st["p"]["p"]) and const_val(pv._rvalue(st["rv"], bi, si, 0)) == 0:
                 tag0 = True
     upd = calls_to(fn, ends("MemoryMappedTick::update"))
+    # the slot is written only after the shift: a tag cleared before rotate_left is overwritten by the byte the rotation brings in
+    for label, g in (("anchor", facts.need_fn(DYN + "::update_tick")), ("pinocchio", fn)):
+        pvg = prov_of(g)
+        rot = [bi for bi, t in g.calls() if (callee_path(t) or "").endswith(("rotate_left", "rotate_right"))]
+        wr = [bi for bi, t in g.calls() if (callee_path(t) or "").endswith(("::serialize", "MemoryMappedTick::update"))]
+        for bi, bb in enumerate(g.blocks):
+            for si, st in enumerate(bb["s"]):
+                if st["k"] == "=" and "p" in st["p"] and any(isinstance(e, dict) and e.get("f") == "ticks" for e in st["p"]["p"]) and any(isinstance(e, dict) and "ix" in e for e in st["p"]["p"]):
+                    wr.append(bi)
+        early = [(w, r) for w in wr for r in rot if r in cfg.reach(g, w) and r != w]
+        run.check("R2", "slot-written-after-shift@" + label, bool(rot) and bool(wr) and not early, "%s update_tick writes the slot (blocks %s) on a path that still reaches a rotation" % (label, sorted({w for w, _ in early})),
+                  loc=g.loc(), detail="%d slot write(s), none before a rotate_left / rotate_right" % len(wr))
     run.check("R2", "written-length@pinocchio", tag0 and len(upd) == 1 and is_param(upd[0][2][1], "update"), "Pinocchio update_tick does not write tag 0 when de-initialising / MemoryMappedTick::update(update) otherwise", loc=fn.loc(),
               detail="ticks[offset] := 0 or view.update(update)")
 
